@@ -49,7 +49,7 @@ Theorem C20_combos_oracle : forall groups size ms2 cf kf tf out,
 Proof. exact combos_specb_iff. Qed.
 
 (* "The combinations are exactly the allowed ones" is FALSE of the faithful model when a chord-size filter
-   is given: PtnFilterChord.filter admits a chunk as soon as one size matches position-wise. *)
+   is given: PtnFilterChord.filter passes a chunk as soon as one size matches position-wise. *)
 Theorem C20_combos_exact_refuted :
   exists df v h aj gs size cf out,
     StronglySorted by_off df /\ group df v h aj = Some gs /\
@@ -63,6 +63,92 @@ Theorem C20_chord_stream_refuted :
   exists gs out,
     template_chord_stream gs 2 2 4 false true = Some out /\ ~ chord_stream_spec gs 2 2 4 false true out.
 Proof. exact chord_stream_refuted. Qed.
+
+(* Inside the domain (filter rows as wide as the combination; with a column filter: keys >= 1 and all
+   columns of the pattern and of the filter within 0..keys-1) and under the guard that excludes the defect
+   class (on every run of consecutive groups the element-wise chord test agrees with row membership),
+   combinations() succeeds and reports exactly the allowed sequences - none missing, none extra. *)
+Theorem C20_combos_exact_guarded : forall groups size ms2 cf kf tf,
+  wf_combos groups size cf kf tf = true -> chord_guard cf size groups = true ->
+  exists out, combinations groups size ms2 cf kf tf = Some out /\ combos_spec groups size ms2 cf kf tf out.
+Proof. exact combos_exact_guarded. Qed.
+
+(* in particular for every column / type filter when no chord-size filter is given *)
+Theorem C20_combos_exact_no_chord_filter : forall groups size ms2 kf tf,
+  wf_combos groups size None kf tf = true ->
+  exists out, combinations groups size ms2 None kf tf = Some out /\ combos_spec groups size ms2 None kf tf out.
+Proof. exact combos_exact_no_chord_filter. Qed.
+
+(* what the code as it is reports with a chord filter: the sequences from the runs its element-wise test passes *)
+Theorem C20_combos_char : forall groups size ms2 cf kf tf,
+  wf_combos groups size cf kf tf = true ->
+  exists out, combinations groups size ms2 cf kf tf = Some out /\
+              Permutation (concat out) (reported ms2 (passed_seqs (chord_passes cf) groups size kf tf)).
+Proof. exact combos_char. Qed.
+
+(* with the chord test repaired to row membership the property holds for every filter *)
+Theorem C20_combos_exact_repaired : forall groups size ms2 cf kf tf,
+  wf_combos groups size cf kf tf = true ->
+  exists out, combinations_with chord_filter_rows groups size ms2 cf kf tf = Some out /\
+              combos_spec groups size ms2 cf kf tf out.
+Proof. exact combos_exact_repaired. Qed.
+
+(* the expected list read declaratively *)
+Theorem C20_allowed_seqs_meaning : forall groups size cf kf tf s,
+  In s (allowed_seqs groups size cf kf tf) <->
+  exists chunk, In chunk (windows size groups) /\ chord_allowed cf chunk = true /\
+              Forall2 (@In note) s chunk /\ cols_allowed kf s = true /\ types_allowed tf s = true.
+Proof. exact allowed_seqs_In. Qed.
+
+(* ---- the filter constructors' option expansion ---- *)
+(* np.unique keeps exactly the rows built; REPEAT = every translate of a base row that stays within 0..keys-1 *)
+Theorem C20_filter_create_repeat : forall keys rows out,
+  repeat_expand keys rows = Some out -> forall r, In r out <-> repeat_rows keys rows r.
+Proof. exact repeat_expand_In. Qed.
+Theorem C20_filter_create_hmirror : forall keys rows r, In r (hmirror keys rows) <-> hmirror_rows keys rows r.
+Proof. exact hmirror_In. Qed.
+Theorem C20_filter_create_vmirror : forall rows r, In r (@vmirror Z rows) <-> vmirror_rows rows r.
+Proof. exact (@vmirror_In Z). Qed.
+Theorem C20_filter_create_type_mirror : forall rows r, In r (@vmirror ntype rows) <-> vmirror_rows rows r.
+Proof. exact (@vmirror_In ntype). Qed.
+Theorem C20_filter_create_any_order : forall rows r, In r (flat_map (@perms Z) rows) <-> any_order_rows rows r.
+Proof. exact (@any_order_In Z). Qed.
+Theorem C20_filter_create_type_any_order : forall rows r, In r (flat_map (@perms ntype) rows) <-> any_order_rows rows r.
+Proof. exact (@any_order_In ntype). Qed.
+Theorem C20_filter_create_and_lower : forall rows r,
+  In r (rows ++ cart (map (fun i => zrange 1 (i + 1)) (colwise Z.max rows))) <-> and_lower_rows rows r.
+Proof. exact and_lower_In. Qed.
+Theorem C20_filter_create_and_higher : forall keys rows r,
+  In r (rows ++ cart (map (fun i => zrange i (keys + 1)) (colwise Z.min rows))) <-> and_higher_rows keys rows r.
+Proof. exact and_higher_In. Qed.
+
+(* how the constructors compose them *)
+Theorem C20_combo_create : forall w rows keys options excl f,
+  combo_create (In2 w rows) keys options excl = Some f ->
+  f_w f = w /\ f_keys f = keys /\ f_inv f = excl /\
+  exists rows1,
+    (if Z.testbit options 0 then forall r, In r rows1 <-> repeat_rows keys rows r else rows1 = rows) /\
+    forall r, In r (f_ar f) <->
+      In r (let rows2 := if Z.testbit options 1 then hmirror keys rows1 else rows1 in
+            if Z.testbit options 2 then vmirror rows2 else rows2).
+Proof. exact combo_create_rows. Qed.
+Theorem C20_chord_create : forall w rows keys options excl f,
+  chord_create (In2 w rows) keys options excl = Some f ->
+  f_w f = w /\ f_inv f = excl /\
+  forall r, In r (f_ar f) <->
+    In r (let rows1 := if Z.testbit options 2
+                       then rows ++ cart (map (fun i => zrange i (keys + 1)) (colwise Z.min rows)) else rows in
+          let rows2 := if Z.testbit options 1
+                       then rows1 ++ cart (map (fun i => zrange 1 (i + 1)) (colwise Z.max rows1)) else rows1 in
+          if Z.testbit options 0 then flat_map perms rows2 else rows2).
+Proof. exact chord_create_rows. Qed.
+Theorem C20_type_create : forall w rows options excl f,
+  type_create (In2 w rows) options excl = Some f ->
+  t_w f = w /\ t_inv f = excl /\
+  forall r, In r (t_ar f) <->
+    In r (if Z.testbit options 0 then flat_map perms rows
+          else if Z.testbit options 1 then vmirror rows else rows).
+Proof. exact type_create_rows. Qed.
 
 (* non-vacuity: the eight-note pattern of the test-suite (with a hold and its tail), v = 100, jacks avoided,
    groups into three groups that satisfy the specification, and its size-3 combinations under a column
